@@ -100,7 +100,7 @@ pub enum FOp {
         /// start epoch = current + start (None: default)
         start: Option<u8>,
         /// length in epochs (None: default)
-        len: Option<u8>,
+        len: Option<u16>,
         id: Option<u8>,
         funds: Funds,
     },
@@ -121,6 +121,10 @@ pub enum FOp {
     Config { which: u8, value: u32 },
     /// other invalid messages
     Bad(u8, u8),
+    /// a position kept for many epochs: open, one top-up per epoch for `rounds` epochs without
+    /// claiming, full exit (close, or emergency withdrawal), next epoch a fresh position - every
+    /// step through the ordinary operations and their monitors
+    Churn { user: u8, lp: u8, rounds: u8, amount: u128, emergency: bool },
 }
 
 #[derive(Debug, Clone, Serialize, Deserialize, PartialEq)]
@@ -144,7 +148,7 @@ pub fn farm_strat() -> impl Strategy<Value = FOp> {
         prop_oneof![6 => 0u8..3, 2 => 3u8..6],
         prop_oneof![6 => 1000u64..10_000_000, 2 => Just(1000u64), 1 => 0u64..1000, 2 => 10_000_000u64..1_000_000_000_000],
         proptest::option::weighted(0.8, prop_oneof![8 => 1u8..4, 1 => Just(0u8), 1 => 4u8..20]),
-        proptest::option::weighted(0.8, prop_oneof![8 => 1u8..12, 1 => Just(0u8), 1 => 12u8..40]),
+        proptest::option::weighted(0.8, prop_oneof![16 => 1u16..12, 2 => Just(0u16), 2 => 12u16..40, 1 => 900u16..3000]),
         proptest::option::weighted(0.3, 0u8..5),
         prop_oneof![
             10 => Just(Funds::Exact),
@@ -208,6 +212,9 @@ pub struct FWeights {
     pub bad: u32,
 }
 
+/// weight of the long-lived-position composite relative to the others (fixed)
+pub const CHURN_WEIGHT: u32 = 1;
+
 impl Default for FWeights {
     fn default() -> Self {
         FWeights { farm: 5, expand_farm: 2, close_farm: 2, open: 8, expand_pos: 5, close_pos: 5, withdraw: 5, lock_pm: 2, claim: 10, advance: 9, config: 1, bad: 1 }
@@ -253,6 +260,10 @@ pub fn op_strat(w: FWeights) -> impl Strategy<Value = FOp> {
         (w.advance, adv_strat().prop_map(FOp::Advance).boxed()),
         (w.config, (0u8..6, any::<u32>()).prop_map(|(which, value)| FOp::Config { which, value }).boxed()),
         (w.bad, (0u8..8, 0u8..4).prop_map(|(a, b)| FOp::Bad(a, b)).boxed()),
+        (
+            if w.open > 0 && w.expand_pos > 0 { CHURN_WEIGHT } else { 0 },
+            (user(), 0u8..3, 9u8..16, lp_amount(), proptest::bool::weighted(0.3)).prop_map(|(user, lp, rounds, amount, emergency)| FOp::Churn { user, lp, rounds, amount, emergency }).boxed(),
+        ),
     ];
     proptest::strategy::Union::new_weighted(all.into_iter().filter(|(w, _)| *w > 0).collect())
 }
@@ -265,7 +276,7 @@ pub struct FarmCase {
 
 /// a farm that is valid by construction under every fee configuration (Funds::Exact, default-ish epochs)
 pub fn good_farm_strat() -> impl Strategy<Value = FOp> {
-    (user(), 0u8..3, prop_oneof![6 => 0u8..3, 1 => 3u8..6], 1000u64..10_000_000, proptest::option::of(1u8..3), proptest::option::of(2u8..10))
+    (user(), 0u8..3, prop_oneof![6 => 0u8..3, 1 => 3u8..6], 1000u64..10_000_000, proptest::option::of(1u8..3), proptest::option::of(2u16..10))
         .prop_map(|(user, lp, reward, amount, start, len)| FOp::Farm { user, lp, reward, amount, start, len, id: None, funds: Funds::Exact })
 }
 
